@@ -111,6 +111,17 @@ def customConfig (kws : List Str) (cfg : Cfg) : Outcome :=
   | some o => o
   | none => .emitted lines
 
+/-- `c.logger.Warn(format, source[, keyword])` as a step of a trace: the regenerated
+`buildBackendCustomConfig` (Generated/CodeC19.lean) records its warnings with it -/
+structure Warned where
+  fmt : String
+  source : String
+  kw : Str
+deriving Repr, DecidableEq
+
+def warn (fx : List Warned) (fmt source : String) (kw : Str := []) : List Warned :=
+  fx ++ [{ fmt := fmt, source := source, kw := kw }]
+
 /-- `Backend.CustomConfig` after the call on a freshly acquired backend -/
 def Outcome.lines : Outcome → List Str
   | .emitted ls => ls
